@@ -53,6 +53,7 @@ from pyvc.tensors import KMat, KShape, KDType, KDevice   # noqa: E402  (declares
 import pyvc.distmodel  # noqa: E402,F401
 
 T_ = KRef('Tensor')
+TF = KRef(None, classes=('Tensor', 'Future'))
 klass('Module', {'training': KBool, 'fwd_hooks': KInt, 'bwd_hooks': KInt, 'weight': T_, 'bias': T_,
                  'kernel_size': KTuple(KInt, KInt), 'stride': KTuple(KInt, KInt), 'padding': KTuple(KInt, KInt),
                  'in_channels': KInt, 'out_channels': KInt, 'cname': KStr}, lib=True)
@@ -62,11 +63,10 @@ klass('KFACBaseLayer', {
     'allreduce_method': KRef('AllreduceMethod'), 'factor_dtype': KDType, 'grad_scaler': KDyn,
     'inv_dtype': KDType, 'symmetry_aware': KBool, 'eps': KReal, 'symmetric_factors': KBool,
     '_a_batch': T_, '_g_batch': T_, '_a_count': KInt, '_g_count': KInt,
-    '_a_factor': KRef(None), '_g_factor': KRef(None), '_grad': KRef(None),      # Tensor | Future | None
+    '_a_factor': TF, '_g_factor': TF, '_grad': TF,      # Tensor | Future | None (type invariant)
 })
-klass('KFACEigenLayer', {'prediv_eigenvalues': KBool, '_qa': KRef(None), '_qg': KRef(None), '_da': KRef(None),
-                         '_dg': KRef(None), '_dgda': KRef(None)})
-klass('KFACInverseLayer', {'_a_inv': KRef(None), '_g_inv': KRef(None)})
+klass('KFACEigenLayer', {'prediv_eigenvalues': KBool, '_qa': TF, '_qg': TF, '_da': TF, '_dg': TF, '_dgda': TF})
+klass('KFACInverseLayer', {'_a_inv': TF, '_g_inv': TF})
 klass('TorchDistributedCommunicator', {
     '_bucket_cap_mb': KReal,
     '_allreduce_buckets': KDict(KSetInt, KRef('AllreduceTensorBucket'), default='none'),
